@@ -6,12 +6,44 @@ from msdm.core.distributions import DictDistribution, UniformDistribution, Deter
 REPRS = ("subclass", "quicktabular", "subclass_explicit", "quicktabular_explicit")
 
 
-def make_dist(lst, kind):
+def make_dist(lst, kind, sp=None):
+    lab = (lambda t: _fresh(t)) if (sp is not None and sp.meta.get("fresh_labels")) else (lambda t: t)
     if kind == "det" and len(lst) == 1:
-        return DeterministicDistribution(lst[0][0])
+        return DeterministicDistribution(lab(lst[0][0]))
     if kind == "uniform":
-        return UniformDistribution([t for t, _ in lst])
-    return DictDistribution({t: q for t, q in lst})
+        return UniformDistribution([lab(t) for t, _ in lst])
+    if sp is not None and sp.meta.get("num_type") == "np":
+        return DictDistribution({lab(t): np.float64(q) for t, q in lst})
+    return DictDistribution({lab(t): q for t, q in lst})
+
+
+def _fresh(t):
+    """a distinct object that compares (and hashes) equal to t, where the type allows one"""
+    if type(t) is tuple:
+        return tuple(list(t))
+    if type(t) is str and len(t) > 1:
+        return "".join(list(t))
+    try:
+        from frozendict import frozendict
+        if isinstance(t, frozendict):
+            return frozendict(dict(t))
+    except Exception:
+        pass
+    return t
+
+
+def _num(sp, x):
+    t = sp.meta.get("num_type", "float")
+    if t == "int_if_integral" and float(x).is_integer() and abs(x) < 1e15:
+        return int(x)
+    if t == "np":
+        return np.float64(x)
+    return x
+
+
+def _acts(sp, s):
+    a = sp.acts[s]
+    return list(a) if sp.meta.get("actions_type") == "list" else a
 
 
 class SpecMDP(TabularMarkovDecisionProcess):
@@ -28,16 +60,16 @@ class SpecMDP(TabularMarkovDecisionProcess):
             self._action_list = tuple(actions)
 
     def next_state_dist(self, s, a):
-        return make_dist(self.sp.P[(s, a)], self.sp.kind[(s, a)])
+        return make_dist(self.sp.P[(s, a)], self.sp.kind[(s, a)], self.sp)
 
     def reward(self, s, a, ns):
-        return self.sp.R.get((s, a, ns), 0.0)
+        return _num(self.sp, self.sp.R.get((s, a, ns), 0.0))
 
     def actions(self, s):
-        return self.sp.acts[s]
+        return _acts(self.sp, s)
 
     def initial_state_dist(self):
-        return make_dist(self.sp.init, self.sp.init_kind)
+        return make_dist(self.sp.init, self.sp.init_kind, self.sp)
 
     def is_absorbing(self, s):
         return _flag(self.sp, s)
@@ -68,10 +100,10 @@ def _flag(sp, s):
 def quick(sp, explicit=False, tabular=True, shuffle_rng=None):
     cls = QuickTabularMDP if tabular else QuickMDP
     mdp = cls(
-        next_state_dist=lambda s, a: make_dist(sp.P[(s, a)], sp.kind[(s, a)]),
-        reward=lambda s, a, ns: sp.R.get((s, a, ns), 0.0),
-        actions=lambda s: sp.acts[s],
-        initial_state_dist=make_dist(sp.init, sp.init_kind),
+        next_state_dist=lambda s, a: make_dist(sp.P[(s, a)], sp.kind[(s, a)], sp),
+        reward=lambda s, a, ns: _num(sp, sp.R.get((s, a, ns), 0.0)),
+        actions=lambda s: _acts(sp, s),
+        initial_state_dist=make_dist(sp.init, sp.init_kind, sp),
         is_absorbing=lambda s: _flag(sp, s),
         discount_rate=sp.gamma,
     )
@@ -124,16 +156,16 @@ def build_pomdp(sp, explicit=False):
                 self._action_list = tuple(sp.action_universe())
 
         def next_state_dist(self, s, a):
-            return make_dist(sp.P[(s, a)], sp.kind[(s, a)])
+            return make_dist(sp.P[(s, a)], sp.kind[(s, a)], sp)
 
         def reward(self, s, a, ns):
-            return sp.R.get((s, a, ns), 0.0)
+            return _num(sp, sp.R.get((s, a, ns), 0.0))
 
         def actions(self, s):
-            return sp.acts[s]
+            return _acts(sp, s)
 
         def initial_state_dist(self):
-            return make_dist(sp.init, sp.init_kind)
+            return make_dist(sp.init, sp.init_kind, sp)
 
         def is_absorbing(self, s):
             return _flag(sp, s)
